@@ -62,4 +62,18 @@ CHECKS = {
             ("mem", "Mem", 250), ("kvplain", "KVPlain", 150), ("osfs", "OSFS", 120), ("ossub2", "OSSub2", 80), ("ossub3", "OSSub3", 80),
             ("mount0", "Mount0", 100), ("mount1", "Mount1", 200), ("mount2", "Mount2", 200), ("submem", "SubMem", 150), ("subsub", "SubSub", 100), ("submountpt", "SubMountPt", 100)]],
     ),
+    "C04": dict(
+        pkg="c04", level="exploration",
+        rule=("each case = a generated start state (0..6 setup ops) of one subject (mem, keyvalue/plain, mount with nested mounts, Sub(mem), Sub(mount), cache, tar, os.FS under a Sub root) and one probe: "
+              "a helper (mkdir, mkdirall, openfile[any flags], create, writefile, remove, removeall, chmod, chtimes, chown, stat, lstat, lstatorstat, open, readdir, readfile, sub; rename/symlink with the name in either position) "
+              "called with a name that is (60%) a valid path with one defect applied (empty, rooted, trailing slash, empty element, '.' or '..' element, invalid UTF-8, escape towards the sentinel; biased to mount points), "
+              "(20%) a fuzzed string over {a b / . \\ : e-acute space}, (20%) a valid odd name (backslash, colon, leading dots, non-ASCII). Validity oracle = io/fs.ValidPath. Invalid: error must match ErrInvalid "
+              "(or ErrNotImplemented if the helper is unsupported there for valid names too) and the snapshots of every constituent FS, the os directory and its sentinel sibling must be unchanged. Valid: never EINVAL for "
+              "stat/open/mkdir/writefile/readfile/remove, and backslash/colon names create exactly one literal root entry. non-trivial = invalid name whose nearest valid repair exists in the subject, or a valid odd name"),
+        assumptions=["'no OS path reached the kernel' is approximated by the unchanged os directory + sentinel sibling", "NUL bytes are not generated"],
+        legs=[dict(name=k, run="^Test%s$" % n, quick=q, thorough=q * 10, shards=2) for (k, n, q) in [
+            ("mem", "Mem", 400), ("kvplain", "KVPlain", 200), ("mount2", "Mount2", 500), ("submem", "SubMem", 300), ("submountpt", "SubMountPt", 300),
+            ("cache", "Cache", 200), ("tar", "Tar", 150), ("osfs", "OSFS", 200), ("sublenient", "SubLenient", 150)]] + [
+            dict(name="fuzznames", run="^$", fuzz="^FuzzNames$", fuzztime="45s", tiers=("thorough",), timeout_thorough=240)],
+    ),
 }
